@@ -12,6 +12,8 @@ CLAIMED = {
          "BLS pairing primitives (blst, cgo) are uninterpreted and assumed not to panic; sort.Slice is assumed to permute in place and sort by the comparator; liskbft API reads and BLS-key uniqueness inside a parameter set are assumed (trusted stubs); GetAggregateCommit self-consistency and the single-commit pool admission path are not yet under contract."),
  "C13": ("Deductive proof over the real code of the single-batch discipline: Chain.AddBlock and Chain.RemoveBlock perform exactly one database write, of the batch they were handed, and none on error; processValidated and deleteBlock reach the database only through that one call (ghost write counter on db.DB.Write/Set/Del), and the consensus-store commit / revert is staged into the very batch that is written with the block.",
          "Atomicity and durability of one pebble batch (Apply with Sync) is assumed, crash points inside pebble are not enumerated; saveBlock/removeBlock key-level content is a trusted stub; genesis path and PrepareCache are not yet under contract."),
+ "C18": ("Deductive proof over the real code of the connection gater: addPenalty adds the score to the entry of exactly that IP (new entry: the score itself), returns the sum, sets a ban expiry (never the 'not banned' marker) exactly when the sum reaches 100, leaves every other IP's entry untouched and changes nothing on error; the inbound and outbound gates (isPeerConnectionAllowed, InterceptAddrDial, InterceptAccept, InterceptSecured) return exactly 'not blacklisted and not banned' (outbound InterceptSecured: true); blockAddr/unblockAddr change exactly one blacklist entry; the expiry sweeper only deletes map entries (it never edits a peerInfo, so a swept IP restarts with a clean score); the gater's mutex is never re-acquired by the goroutine holding it and is released on every path.",
+         "manet.ToIP/net.IP.String are uninterpreted functions of the address; time.Now().Unix() >= 0 and Duration.Seconds are assumed; the sweeper's 'expired entries are removed' direction, Peer.addPenalty/banPeer disconnects, rate-limit penalties and the history statement 'refused until expiry' are not yet under contract; other goroutines are assumed to preserve the gater invariant (rely condition at yield points)."),
  "C19": ("Deductive proof over the real code of the peer-selection filters and height lists: every peer kept by the maxHeightPrevoted (resp. height) filter has a value >= every offered peer, the filters never return an empty list for a non-empty input, getLastHeights/getHeightWithGap return strictly the documented descending lists and never a height below the given minimum (loop invariants, unbounded list length).",
          "Completeness of the filters (every maximal peer is kept) and the most-frequent-block-ID filter are not decided yet (quantifier alternation / map iteration); RPC handlers and convergence are not covered; heights are assumed < 2^31 and gap/num small (stated as preconditions)."),
  "C08": ("Deductive proof over the real code of the varint layer: readUint accepts exactly the canonical (shortest, terminated, <= 10 bytes, 10th byte <= 1) LEB128 strings, returns their value, and is complete for every canonical string (10-way unrolling with a discharged unwinding assertion, so unbounded in the input); varintShortestSize equals the LIP-0027 length function; key decoding accepts exactly wire types 0/2.",
